@@ -34,7 +34,7 @@ def in_fragment(m):
 
 
 ATTRS = (('cost', 3), ('cost', 7), ('weight', 2.5), ('flag', True), ('label', 'hello'), ('a b', 1), ('ünï', 'x'))
-NAMES = ('a b', 'a-b', 'ñu', 'Cafe\u0301', '\u212b', 'x\u2028y')
+NAMES = ('a b', 'a-b', 'ñu', 'Cafe\u0301', '\u212b', 'x\u2028y', '_', '__', '_a', 'a_')
 
 
 def _level1():
